@@ -39,6 +39,7 @@ type recEnv struct {
 	script  []attemptScript
 	n       int32 // attempts started
 	closeAt string
+	lateCtx bool   // the Impl notices cancellation only where it blocks (a dial/stream set-up racing with the cancel completes)
 	fire    func() // fires Close (once)
 	hung    bool
 }
@@ -48,6 +49,9 @@ func (e *recEnv) emit(ev trace.E) { e.mu.Lock(); e.w.Emit(ev); e.mu.Unlock() }
 func (e *recEnv) at(point string) {
 	if e.closeAt == point {
 		e.fire()
+		if e.lateCtx {
+			time.Sleep(2 * time.Millisecond) // Close gets going while this step is still in progress
+		}
 	}
 }
 
@@ -64,7 +68,7 @@ type scriptImpl struct {
 
 func (i *scriptImpl) Subscribe(ctx context.Context, q client.Query) error {
 	i.e.at(fmt.Sprintf("sub%d", i.k))
-	if ctx.Err() != nil {
+	if ctx.Err() != nil && !i.e.lateCtx {
 		return ctx.Err()
 	}
 	if i.s.Sub == "err" {
@@ -76,12 +80,14 @@ func (i *scriptImpl) Subscribe(ctx context.Context, q client.Query) error {
 
 func (i *scriptImpl) Recv() error {
 	i.e.at(fmt.Sprintf("recv%d", i.k))
-	select {
-	case <-i.ctx.Done():
-		return i.ctx.Err()
-	case <-i.closed:
-		return errors.New("closed")
-	default:
+	if !i.e.lateCtx || i.sent >= i.s.Msgs {
+		select {
+		case <-i.ctx.Done():
+			return i.ctx.Err()
+		case <-i.closed:
+			return errors.New("closed")
+		default:
+		}
 	}
 	if i.sent < i.s.Msgs {
 		i.sent++
@@ -138,17 +144,31 @@ func reconnectScripted(w *trace.Writer, seed int64) bool {
 	}
 	points = append(points, fmt.Sprintf("block%d", len(e.script)), fmt.Sprintf("sleep%d", 1+r.Intn(len(e.script))))
 	e.closeAt = points[r.Intn(len(points))]
+	e.lateCtx = r.Intn(3) == 0
+	if e.lateCtx {
+		// a connect that completes although Close has cancelled it, followed by a stream with several messages
+		for k := range e.script {
+			e.script[k].Msgs = 2 + r.Intn(2)
+		}
+		if r.Intn(2) == 0 {
+			k := 1 + r.Intn(len(e.script))
+			e.closeAt = []string{fmt.Sprintf("new%d", k), fmt.Sprintf("sub%d", k)}[r.Intn(2)]
+		}
+	}
 
 	typ := fmt.Sprintf("verif-%d", atomic.AddInt64(&recTypeSeq, 1))
 	client.RegisterTest(typ, func(ctx context.Context, d client.Destination) (client.Impl, error) {
 		k := int(atomic.AddInt32(&e.n, 1))
 		e.emit(trace.E{"ev": "attempt", "n": k})
+		if ctx.Err() != nil {
+			return nil, ctx.Err() // cancelled before the attempt began: no dial completes
+		}
 		e.at(fmt.Sprintf("new%d", k))
 		s := attemptScript{New: "ok", Sub: "ok", Out: "block"}
 		if k <= len(e.script) {
 			s = e.script[k-1]
 		}
-		if ctx.Err() != nil {
+		if ctx.Err() != nil && !e.lateCtx {
 			return nil, ctx.Err()
 		}
 		if s.New == "err" {
